@@ -28,6 +28,9 @@ CHECKS = {
  "C08": ("other", "taint-style def-use classification (reaching definitions) of every non-literal output sink in the XML/HTML writer units; EDPE sibling comparison of raw token printing; EDPE escaper tables over all 256 bytes",
          "Decides the escaping discipline: document-derived strings (urls, titles, attribute keys/values, metadata values, fence info strings, clean_string results) reach html/odf/opml/itmz/epub output only through the format's escape helper; token types that some dispatcher renders as an entity are never printed as raw token text by another; the character escapers map & < > \" to entities; the OPML/ITMZ escaper and the unescaper are inverse. Whole-output well-formedness for every input (control characters, data-dependent nesting) is not decided.",
          "§3 C08"),
+ "C09": ("other", "call-site census of every mz_zip_writer_add_mem in the package creators (names, order by dominance, flags, data provenance) and cross-literal agreement checks (container.xml / OPF manifest / ODF manifest vs. member names)",
+         "Decides the structural clauses: required members are added under the right names, mimetype first (and stored for ODT) with the right media-type literal, container.xml names the OPF member, the OPF manifest's hrefs and the ODF manifest's full-paths all exist as members, the main member's data is the rendered body, every creator finalises the heap archive into the result DString after all adds, asset names come from uuid_new and the asset table is handed to the builder; plus R-PTRPTR. CRCs, miniz correctness and byte-level archive validity are not decided.",
+         "§3 C09"),
  "C10": ("other", "format-literal census of every id=/href=# anchor site with reaching-definition classification of the printed number; provenance check of heading anchors (one label function); field-write census of the numbering counters",
          "Decides: within each anchor family (fn, fnref, cn, cnref, gn, gnref) every id and every reference print the number derived the same way (plain vs EXT_RANDOM_FOOT-transformed), each referenced family has an id site, heading ids / TOC / EPUB nav / LaTeX labels / ODF bookmarks all come from label_from_header, the auto-link target does too (known finding), and the note lists iterate the stacks that assign the numbers. That every reference resolves for every document (label text equality) is not decided.",
          "§3 C10"),
